@@ -264,10 +264,10 @@ SMALL_ALPHABET = ":#.=<A1٣ \t"
 
 
 def _totality_shards(tier):
-    sh = [{"frame": i, "max_len": 2} for i in range(len(FRAMES))]
-    if tier != "quick":
-        sh += [{"frame": i, "max_len": 3, "alphabet": SMALL_ALPHABET} for i in range(len(FRAMES))]
-    return sh
+    if tier == "quick":
+        return [{"frame": i, "max_len": 2, "alphabet": SMALL_ALPHABET} for i in range(len(FRAMES))]
+    return ([{"frame": i, "max_len": 2} for i in range(len(FRAMES))]
+            + [{"frame": i, "max_len": 3, "alphabet": SMALL_ALPHABET} for i in range(len(FRAMES))])
 
 
 OBLIGATIONS = [
@@ -296,7 +296,7 @@ OBLIGATIONS = [
         encoded=["openpectus.lang.model.parser:PcodeParser._parse_line", "openpectus.lang.model.parser:PcodeParser._parse_tag_operator_value",
                  "openpectus.lang.model.parser:PcodeParser.parse_method"],
         symbolic="a string over the 17-character alphabet " + repr(ALPHABET) + " placed in one of 16 frames (prefix/suffix) on the middle line of a 3 line method",
-        bounds={"quick": "string length <= 2 over the 17 characters", "thorough": "length <= 2 over the 17 characters and length <= 3 over " + repr(SMALL_ALPHABET)},
+        bounds={"quick": "string length <= 2 over " + repr(SMALL_ALPHABET), "thorough": "length <= 2 over the 17 characters and length <= 3 over " + repr(SMALL_ALPHABET)},
         assumptions=["strip/startswith/index/len before the regex run on the symbolic string; the line is concretised immediately before "
                      "Grammar.instruction_line_pattern.match and before re.search in _parse_tag_operator_value (C regex engine): "
                      "bounded exhaustive over the strings, each decided by a concrete run", "log statements removed at import"]),
